@@ -23,6 +23,7 @@ type PropertyCfg struct {
 	Bounded     []string
 	Assumptions []string
 	Special     func(p *Program, run *CheckRun) // extra analyses (region checker, sweeps)
+	Sweep       *SweepCfg                       // decided on the package-wide sweep
 }
 
 type CheckRun struct {
@@ -185,12 +186,19 @@ func cmdCheck(args []string) int {
 	d := &Discharger{WorkDir: workDir, TimeoutS: timeout, Seed: seed, Par: runtime.NumCPU(), Retry: true}
 	fpRes := &FuncResult{Key: "contracts/fp (floating-point library lemmas)"}
 	funcs := append(propFuncs(p, id), cfg.Funcs...)
+	if cfg.Sweep != nil {
+		funcs = nil
+		loadSweep(p, run, cfg, timeout)
+	}
 	for _, k := range funcs {
 		res := generateOne(p, k, workDir, false)
 		run.Results = append(run.Results, res)
 		run.Obls = append(run.Obls, res.Obls...)
 	}
 	for _, h := range propHarnesses(p, id) {
+		if cfg.Sweep != nil {
+			break
+		}
 		res := generateOne(p, h, workDir, true)
 		res.Key = "harness:" + h
 		run.Results = append(run.Results, res)
@@ -219,7 +227,9 @@ func cmdCheck(args []string) int {
 		run.Results = append(run.Results, fpRes)
 	}
 	d.Retry = true
-	solveAll(run.Obls, d)
+	if cfg.Sweep == nil {
+		solveAll(run.Obls, d)
+	}
 	if cfg.Special != nil {
 		cfg.Special(p, run)
 	}
